@@ -352,11 +352,9 @@ impl FormattingError {
             | ErrorKind::DeprecatedAttr
             | ErrorKind::BadAttr
             | ErrorKind::LostComment => {
-                let trailing_ws_start = self
-                    .line_buffer
-                    .rfind(|c: char| !c.is_whitespace())
-                    .map(|pos| pos + 1)
-                    .unwrap_or(0);
+                // Byte offset just past the last non-whitespace character (which may be
+                // wider than one byte).
+                let trailing_ws_start = self.line_buffer.trim_end().len();
                 (
                     trailing_ws_start,
                     self.line_buffer.len() - trailing_ws_start,
